@@ -318,3 +318,25 @@ def lexical_program(rng):
                                      'x = a if b else c\n', 'x = [...]\n', 'x = a.b. c\n', 'x = a ;y = b\n', 'x = (a:=1)\n', 'x |= 1; x ^= 2; x &= 3\n',
                                      'x = not-a\n', 'x = a<b\n', 'x=~a\n', 'x = a\\\n + b\n', 'x = (a,\n  b)\n', 'if a:\n\tb\n', 'if a:\n  b\n  c\n', 'x = 1 # c\n#d\n']))
     return ''.join(lines)
+
+
+def valid_number(rng):
+    """a number literal spelled from the lexical grammar of Python 3.6+ (always valid): every place an underscore may stand"""
+    def digitpart(ds, first=None):
+        s = rng.choice(first or ds)
+        for _ in range(rng.choice([0, 0, 1, 2, 4])):
+            s += ('_' if rng.random() < .3 else '') + rng.choice(ds)
+        return s
+    r = rng.random()
+    if r < .3:
+        p, ds = rng.choice([('0x', '0123456789abcdefABCDEF'), ('0X', '09afAF'), ('0o', '01234567'), ('0O', '07'), ('0b', '01'), ('0B', '01')])
+        return p + ('_' if rng.random() < .3 else '') + digitpart(ds)
+    if r < .5:
+        return digitpart('0123456789', '123456789') if rng.random() < .8 else ('0' + ''.join(rng.choice(['0', '_0']) for _ in range(rng.randint(0, 3))))
+    dp = lambda: digitpart('0123456789')
+    ex = lambda: rng.choice('eE') + rng.choice(['', '+', '-']) + dp()
+    k = rng.randrange(5)
+    f = [dp() + '.' + dp(), dp() + '.', '.' + dp(), dp() + ex(), rng.choice([dp() + '.' + dp(), '.' + dp(), dp() + '.']) + ex()][k]
+    if rng.random() < .35:
+        return rng.choice([f, dp()]) + rng.choice('jJ')
+    return f
